@@ -1154,4 +1154,30 @@ theorem tie_convention_plan (fromC toC : List Char) :
 
 example : conventionPlanSrc ['L', 'P', 'H'] ['F', 'L', 'P'] = .ok ([false, false, true], [2, 0, 1]) := by decide
 
+
+/-- the channel (optical path / segment) does not enter the spatial information of a TILED_FULL frame: the same tile of the same focal
+plane in two channels has the same transformers -/
+theorem for_image_channel_independent {ds : ImageDs} {tf : TiledFull} {P : Plane} {z sbs : Option Rat} (h : TiledSlide ds tf P z sbs)
+    (ch ch' pl tr tc : Nat) (hch : ch < tf.channels) (hch' : ch' < tf.channels) (hpl : pl < tf.npl) (htr : tr < tf.ntr) (htc : tc < tf.ntc) :
+    getSpatialInformation ds (some (tf.frameNumber ch pl tr tc)) false = getSpatialInformation ds (some (tf.frameNumber ch' pl tr tc)) false :=
+  spatialInfo_channel_independent h ch ch' pl tr tc hch hch' hpl htr htc
+
+/-- **the dataset clause of the property, in pixel-to-pixel form**: for a TILED_FULL slide image (valid plane, unit normal),
+`PixelToPixelTransformer.for_images(ds, ds, frame_number_from = f, for_total_pixel_matrix_to = True)` exists for every frame `f` of the
+first focal plane - any channel, any tile - and maps pixel `(c, r)` of the frame at 1-based offset `(C, R) = (tc·Columns + 1, tr·Rows + 1)`
+to pixel `(C − 1 + c, R − 1 + r)` of the total pixel matrix, with slice index exactly 0 (the coplanarity decision accepts the pair) -/
+theorem for_images_frame_to_total_matrix {ds : ImageDs} {tf : TiledFull} {P : Plane} {z sbs : Option Rat} (h : TiledSlide ds tf P z sbs)
+    (hP : P.Valid) (hn : P.nrm.dot P.nrm = 1) (u : String) (hu : ds.frameOfReference = some u)
+    (ch tr tc : Nat) (hch : ch < tf.channels) (hpl : 0 < tf.npl) (htr : tr < tf.ntr) (htc : tc < tf.ntc) :
+    ∃ a, pixToPixForImages ds ds (some (tf.frameNumber ch 0 tr tc)) none false true = .ok a ∧
+      ∀ c r : Rat, a.apply ⟨c, r, 0⟩ = ⟨(((tc : Int) * tf.cols : Int) : Rat) + c, (((tr : Int) * tf.rows : Int) : Rat) + r, 0⟩ :=
+  forImages_frame_to_total h hP hn u hu ch tr tc hch hpl htr htc
+
+example : exSlidePlane.Valid ∧ exSlidePlane.nrm.dot exSlidePlane.nrm = 1 :=
+  ⟨⟨by decide +kernel, by decide +kernel, by decide +kernel⟩, by decide +kernel⟩
+/-- frame 29 = third optical path, first focal plane, tile row 2, tile column 0: pixel (1, 3) is pixel (1, 11) of the total pixel matrix -/
+example : exTf.frameNumber 2 0 2 0 = 29 ∧
+    (pixToPixForImages { exTiled with frameOfReference := some "1.2.3" } { exTiled with frameOfReference := some "1.2.3" }
+      (some 29) none false true).map (fun a => a.apply ⟨1, 3, 0⟩) = .ok ⟨1, 11, 0⟩ := by decide +kernel
+
 end HdVerif.C10
